@@ -392,6 +392,19 @@ fn ints(rows: &[Vec<f64>], den: i64) -> Vec<Vec<i64>> {
     }
 }
 
+/// description of the input: how many rows each class has, ascending (empty for regression)
+fn class_sizes(kind: &str, y: &[f64]) -> Vec<usize> {
+    if kind != "cls" {
+        return vec![];
+    }
+    let mut labels: Vec<f64> = y.to_vec();
+    labels.sort_by(|a, b| a.partial_cmp(b).unwrap());
+    labels.dedup();
+    let mut sizes: Vec<usize> = labels.iter().map(|l| y.iter().filter(|v| *v == l).count()).collect();
+    sizes.sort();
+    sizes
+}
+
 fn emit_fit(out: &mut Out, run: i64, full: bool, d: &Data, s: &Setting, seed: u64) {
     let base = base_key(d, s);
     let key = format!("{}#{}", base, seed);
@@ -402,6 +415,7 @@ fn emit_fit(out: &mut Out, run: i64, full: bool, d: &Data, s: &Setting, seed: u6
             "run": run, "ev": "ForestFit", "key": key, "base": base, "digest": digest, "fdigest": fdigest, "status": status,
             "in": {"kind": s.kind, "n": d.x.len(), "p": p, "xDen": d.xden, "X": ints(&d.x, d.xden), "Xq": ints(&d.xq, d.xden),
                    "y": proj_vec(s.kind, &d.y).1,
+                   "classSizes": class_sizes(s.kind, &d.y),
                    "yHex": d.y.iter().map(|v| format!("{:016x}", v.to_bits())).collect::<Vec<String>>(),
                    "nTrees": s.n_trees, "m": s.m.map(|v| v as i64).unwrap_or(-1),
                    "maxDepth": s.max_depth.map(|v| v as i64).unwrap_or(-1),
@@ -539,6 +553,33 @@ fn gen_data(r: &mut StdRng, id: usize, kind: &'static str, n: usize, p: usize, d
     Data { id, xden, x, xq, y }
 }
 
+/// Systematic family: a classification set of exactly `n` rows whose classes have exactly the
+/// given sizes (e.g. [1, n-1] or [1, 2, 3, n-6]); 1..2 features.  The stratified bootstrap
+/// must give every class as many draws as it has rows for every n of the property's range.
+fn gen_profile_data(r: &mut StdRng, id: usize, n: usize, sizes: &[usize], distinct: bool) -> Data {
+    let p = r.gen_range(1..=2);
+    let mut d = gen_data(r, id, "cls", n, p, distinct);
+    let mut pool: Vec<i64> = (-9..=20).collect();
+    pool.shuffle(r);
+    let mut rows: Vec<usize> = (0..n).collect();
+    // small classes sit at the extremes of the first feature half of the time (learnable),
+    // anywhere otherwise
+    if r.gen_bool(0.5) {
+        rows.sort_by(|&a, &b| d.x[a][0].partial_cmp(&d.x[b][0]).unwrap());
+    } else {
+        rows.shuffle(r);
+    }
+    let mut pos = 0;
+    for (c, &sz) in sizes.iter().enumerate() {
+        for _ in 0..sz {
+            d.y[rows[pos]] = pool[c] as f64;
+            pos += 1;
+        }
+    }
+    assert_eq!(pos, n);
+    d
+}
+
 fn gen_setting(r: &mut StdRng, kind: &'static str, p: usize, unlimited: bool, big: bool) -> Setting {
     let n_trees = if big {
         r.gen_range(8..=30)
@@ -620,6 +661,39 @@ fn gen_fits(path: &str) {
         emit_fit(&mut out, run, false, &d, &s, s2);
         if early.len() < 8 {
             early.push((d, s, s1));
+        }
+    }
+    // systematic: every row count of the property's range with a single-row class, and with
+    // classes of 1, 2 and 3 rows; thorough: also every two-class split k : n-k, k <= 6
+    for n in 4..=120usize {
+        let mut profiles: Vec<Vec<usize>> = vec![vec![1, n - 1]];
+        profiles.push(if n >= 7 {
+            vec![1, 2, 3, n - 6]
+        } else if n >= 5 {
+            vec![1, 2, n - 3]
+        } else {
+            vec![1, 1, n - 2]
+        });
+        if th {
+            for k in 2..=usize::min(6, n - 1) {
+                profiles.push(vec![k, n - k]);
+            }
+            profiles.push(vec![1, 1, n - 2]);
+        }
+        for sizes in profiles.iter() {
+            run += 1;
+            let distinct = r.gen_bool(0.5);
+            let d = gen_profile_data(&mut r, cases + run as usize, n, sizes, distinct);
+            let p = d.x[0].len();
+            let mut s = gen_setting(&mut r, "cls", p, distinct, false);
+            s.n_trees = r.gen_range(1..=3);
+            s.keep = true;
+            let s1 = pick_seed(&mut r);
+            let s2 = s1.wrapping_add(r.gen_range(1..1000));
+            emit_fit(&mut out, run, true, &d, &s, s1);
+            emit_fit(&mut out, run, true, &d, &s, s2);
+            emit_fit(&mut out, run, false, &d, &s, s1);
+            emit_fit(&mut out, run, false, &d, &s, s2);
         }
     }
     // late re-fits of the earliest keys: the whole session lies in between
